@@ -361,7 +361,9 @@ class NetworkService(ModelElement):
         """
         assert interface is not None
 
-        peers = interface.get_peers()
+        # only the service-side port created by connect_interface() is of interest here, the
+        # interface may in addition be wired to other interfaces by a plain link
+        peers = interface.get_peers(itype=InterfaceType.ServicePort)
         if peers is None or len(peers) == 0:
             return
 
